@@ -14,6 +14,8 @@ CONSTANTS
   ClsU = {"U", "V", "W"}
   BadArgs = {"none", "badtype"}
   MaxItems = 2
+  MaxCompile = 1
+  SameD = TRUE
   GenDepth = 10
 INVARIANT ImplRefinesReq
 INVARIANT ReqWellFormed
